@@ -1,6 +1,7 @@
 import SqlgrepModel.Model.Eval
 import SqlgrepModel.Lemmas.NumericOrder
 import SqlgrepModel.Lemmas.Utf8Order
+import SqlgrepModel.Lemmas.ParseLitTs
 /-
 C03 (expression level) — the documented meaning of expressions, for ALL operands, environments and
 oracle tables. The model is `Sqlgrep.eval` (Model/Eval.lean), mirroring
@@ -96,7 +97,15 @@ theorem tsOfText_nonnull (s : Bytes) (w : Value) (h : tsOfText O s = .ok w) : w.
   unfold tsOfText parseLit at h
   simp only [bind, Outcome.bind] at h
   cases hl : lookupB O.tsparse s with
-  | none => rw [hl] at h; simp at h
+  | none =>
+    rw [hl] at h
+    cases hp : Lit.parseTimestampLit s with
+    | none => rw [hp] at h; simp at h
+    | some t =>
+      rw [hp] at h
+      simp only [pure, Outcome.ok.injEq] at h
+      obtain ⟨d, sec, f, ht⟩ := Lit.parseTimestampLit_timestamp s t hp
+      rw [← h, ht]; rfl
   | some r =>
     rw [hl] at h
     cases r with
